@@ -46,3 +46,19 @@ Theorem C07_cache_crash_closed : forall c progs sched,
   Winv (db cf) /\ (forall g, In g (refs (db cf)) -> files cf g = FDone).
 Proof. exact cache_committed_files_complete. Qed.
 Print Assumptions C07_cache_crash_closed.
+
+From DC Require Import CacheRun ConcRun ConcRunFacts.
+
+(* the crash correspondence (harness/props/c07.py evaluates ConcRun.crash_check at kill points of the
+   implementation) is sound: agreement means that a schedule of the machine ending in `Kill 0`, from the empty
+   cache with the compiled setup and program, reaches a configuration that satisfies the machine invariant and
+   whose committed rows, counters and files (partial and unreferenced ones included) are those found on disk
+   after the kill, with the outcomes of the calls that had returned *)
+Theorem C07_crash_correspondence_sound : forall c setup prog events seen0 inflight final,
+  crash_check c init_st setup prog events seen0 inflight final = -1 ->
+  exists su p sch,
+    let cf := exec (init_config init_st (prog_fun [p] su)) (sch ++ [Kill 0]) in
+    Inv refs Winv cf /\ Winv (db cf) /\ (forall g, In g (refs (db cf)) -> files cf g = FDone) /\
+    outcomes_match_upto (c_done (cl cf 0)) seen0 inflight = true /\ disk_matches cf final = true.
+Proof. exact crash_check_sound. Qed.
+Print Assumptions C07_crash_correspondence_sound.
